@@ -30,7 +30,7 @@ func aliasCols(r *rng) []colDesc {
 	}
 	for _, f := range fmtNames {
 		if r.chance(1, 3) {
-			cols = append(cols, colDesc{name: "c_" + f, format: f, ty: pick(r, []string{"none", "none", "int", "str", "f64", "bytes", "i8"})})
+			cols = append(cols, colDesc{name: "c_" + f, format: f, ty: pick(r, []string{"none", "none", "int", "str", "f64", "bytes", "i8", "other"})})
 		}
 	}
 	return cols
